@@ -28,7 +28,7 @@ REAL_VS_STUB = {'real': ['kyupy.circuit.Circuit: copy, __getstate__/__setstate__
 ASSUMPTIONS = ['the set of cell names every library must offer is the pinned tree\'s (dsim/data/libcells.json, 1026 names); additional cells are fine', 'an instance input pin is left unconnected only where "reads 0" and "not connected" give the cell the same function (otherwise the function before resolving is ambiguous)',
                'the function of a sequential library instance is defined through its implementation: state = the state element inside, result = value at that element\'s data pin',
                'one library per case; resolve_tlib_cells is called with the library the instances were taken from']
-EXPECTED_PROBES = ['implementation_reused_after_edit', 'nested_multi_output_impl', 'resolve_step', 'substitute_step', 'restore_step', 'elim_step', 'unconnected_input_pin', 'unconnected_output_pin', 'sequential_cell', 'multi_output_cell', 'cell_without_output', 'ignored_pin_cell']
+EXPECTED_PROBES = ['manual_buffer_inserted', 'implementation_reused_after_edit', 'nested_multi_output_impl', 'resolve_step', 'substitute_step', 'restore_step', 'elim_step', 'unconnected_input_pin', 'unconnected_output_pin', 'sequential_cell', 'multi_output_cell', 'cell_without_output', 'ignored_pin_cell']
 
 LIBS = ['GSC180', 'NANGATE', 'NANGATE_ZN', 'SAED32', 'SAED90']
 HIDDEN_LATCH = ('DLH_X', 'DLL_X', 'TLAT_X1', 'TLATX1', 'TLATSRX1')
@@ -72,7 +72,7 @@ def gen(rng, tier, i):
             items.append(['g', kind, [rng.randrange(1 << 16) for _ in range(n)]])
     steps = []
     for _ in range(rng.randint(1, 8)):
-        k = rng.choice(['copy', 'pickle', 'elim', 'resolve', 'resolve', 'subst', 'subst'])
+        k = rng.choice(['copy', 'pickle', 'elim', 'resolve', 'resolve', 'subst', 'subst', 'buf'])
         steps.append([k, rng.randrange(1 << 16), rng.randrange(1 << 16)])
     if not any(s[0] == 'resolve' for s in steps): steps.insert(rng.randint(0, len(steps)), ['resolve', 0, 0])
     return {'lib': li, 'n_in': n_in, 'items': items, 'outs': [rng.randrange(1 << 16) for _ in range(rng.randint(1, 4))], 'out_all_unread': rng.random() < 0.6,
@@ -326,6 +326,22 @@ def execute(case):
         elif kind == 'resolve':
             c.resolve_tlib_cells(tlib); res.probe('resolve_step')
             if interesting: res.nontrivial = True
+        elif kind == 'buf':
+            # manual edit through the public API: a line is cut and a buffer inserted (function unchanged, indices move)
+            from kyupy.circuit import Node, Line
+            if len(c.lines) > 0:
+                l = c.lines[st[1] % len(c.lines)]
+                d, dp, r, rp = l.driver, l.driver_pin, l.reader, l.reader_pin
+                uid += 1
+                bn = Node(c, f'mbuf{k}u{uid}', 'buf')
+                if d.kind == '__fork__':
+                    l.remove()      # fork outputs are squeezed: the new branch goes to the end
+                    Line(c, d, (bn, 0))
+                else:
+                    l.remove()
+                    Line(c, (d, dp), (bn, 0))
+                Line(c, (bn, 0), (r, rp))
+                res.probe('manual_buffer_inserted')
         elif kind == 'subst':
             c.substitute(target, impl); res.probe('substitute_step')
             if interesting: res.nontrivial = True
